@@ -49,3 +49,11 @@ Theorem C12_true_parent : forall t i p c, subtree t (i :: p) = Some c ->
   exists s, subtree t p = Some s /\ nth_error (uchildren s) i = Some c.
 Proof. exact parent_is_true_parent. Qed.
 Print Assumptions C12_true_parent.
+
+(* The heading level the range theorem speaks about is the one Heading.start computes in the source as it is now:
+   Gen/GenBlockStart.v is written from block_token.py on every run (harness/gen/gen_blockstart.py) and the model's
+   heading_start - level, content and closing sequence - is equal to it on every line (Proofs/BlockStartRegen.v). *)
+From Mistletoe Require Import Model.Block Gen.GenBlockStart Proofs.BlockStartRegen.
+Theorem C12_heading_start_is_the_source : forall line, g_Heading_start line = heading_start line.
+Proof. exact heading_start_regen. Qed.
+Print Assumptions C12_heading_start_is_the_source.
